@@ -17,8 +17,17 @@ def replay_file(path):
             return 3
         info = common.replay_kernel(reg[target], p["obligation"], p.get("model", {}))
     else:
-        mod = importlib.import_module(p["replay_module"])
-        info = getattr(mod, p.get("replay_fn", "replay"))(p)
+        modname = p.get("replay_module") or f"jxverif.props.{p.get('property')}"
+        try:
+            mod = importlib.import_module(modname)
+            fn = getattr(mod, p.get("replay_fn", "replay"), None)
+        except Exception:
+            fn = None
+        if fn is None:
+            print(json.dumps({k: p.get(k) for k in ("obligation", "solver", "solver_output", "replay")}, indent=1, default=str)[:3000])
+            print("no native replay is defined for this obligation: the file carries the failed obligation and the verifier's output (no-failing-input-found)")
+            return 0
+        info = fn(p)
     print(json.dumps(info, indent=1, default=str))
     if info.get("reproduced"):
         print("REPRODUCED: the real code violates the obligation at this input")
